@@ -480,6 +480,8 @@ func (w *wireDump) BeforeWrite(s *quic.Stream, p []byte) (int, quic.Fault) {
 }
 
 func (w *wireDump) print() {
+	// diagnostic output only: never let a stream that is not what its key suggests break a replay
+	defer func() { recover() }()
 	for _, k := range w.order {
 		b := w.log[k]
 		if strings.HasSuffix(k, ":0") {
@@ -488,6 +490,10 @@ func (w *wireDump) print() {
 			if strings.Contains(k, "/c:") && len(b) > 8 {
 				l := int(b[4])<<24 | int(b[5])<<16 | int(b[6])<<8 | int(b[7])
 				off = 8 + l
+				if l < 0 || off > len(b) {
+					fmt.Fprintf(os.Stderr, "    (not a control stream)\n")
+					continue
+				}
 				fmt.Fprintf(os.Stderr, "    header+manifest %d bytes\n", off)
 			}
 			ms := memStream{bytes.NewReader(b[off:])}
